@@ -136,7 +136,7 @@ class RunResult:
 
 
 def run_mirror(sb, handler, chooser=None, on_fs_event=None, budget=20000, trace_roots=None, use_gates=True,
-               pre_run=None):
+               pre_run=None, obs=None):
     """returns RunResult(exit, net, trace, exception)"""
     patch_seams()
     net = Net()
@@ -152,6 +152,8 @@ def run_mirror(sb, handler, chooser=None, on_fs_event=None, budget=20000, trace_
     res.config = config
     tracer = Tracer(trace_roots or [sb.top], on_event=on_fs_event)
     res.trace = tracer
+    if obs is not None:
+        obs.tracer = tracer
     apt = am.APTMirror(config)
     res.apt = apt
     if pre_run:
